@@ -327,7 +327,10 @@ def m2(ctx, rep):
                       construct='plotted frame')
             for src, lab, _i in dv:
                 labels[src] = lab
-                if src in expected:
+                if src in expected and lab is None:
+                    rep.undecided('M2.label', fn, hc, f'which label the rows of `{src}` carry was not derived (the label column is not written by a plain store on that frame)',
+                                  construct=f'label of {src}')
+                elif src in expected:
                     rep.check('M2.label', fn, hc, lab == expected[src], f"rows of `{src}` carry the label '{lab}'",
                               f"rows of `{src}` carry the label {lab!r} instead of '{expected[src]}'", construct=f'label of {src}')
         cv = binding.get('columns')
@@ -372,6 +375,9 @@ def m2(ctx, rep):
         if len(bases) > 1:
             rep.bad('M2.axes', helper, pc, 'the axes are taken from different column lists', construct='axes share one column list')
         col = kwarg(pc, 'color')
+        if label_col is None and const_value(col) is not None:
+            rep.undecided('M2.axes', helper, pc, f"colour follows the '{const_value(col)}' column; which column holds the labels was not derived", construct='color')
+            continue
         rep.check('M2.axes', helper, pc, const_value(col) == label_col and label_col is not None,
                   f"colour follows the '{label_col}' column", f'colour is {short(col)}, label column is {label_col!r}',
                   construct='color')
